@@ -58,6 +58,15 @@ fn injections(rng: &mut Rng, w: &mut World, d: &mut Driver) -> Vec<Inj> {
         v.push(Inj { op: Op::Finalise { ts, hash: hash.clone(), count: ntx - 1 }, kind: "finalise-wrong-count", must_reject: true });
         v.push(Inj { op: Op::Finalise { ts: ts.wrapping_add(3), hash: hash.clone(), count: ntx }, kind: "finalise-other-timestamp", must_reject: true });
         v.push(Inj { op: Op::Finalise { ts, hash: crate::hist::bh((0xbeef_0000u64 + u) as u64), count: ntx }, kind: "finalise-other-hash", must_reject: true });
+        // the zero hash stands for "the generated hash of this height": in a block that was opened under
+        // an explicit hash it is another hash
+        let explicit = open.as_ref().map(|(_, h)| h != hist::ZERO_HASH).unwrap_or(false);
+        // (only injected there: in a block opened under the zero hash the call is in protocol, would be
+        // accepted, and the injections after it in this batch were computed for the block without it)
+        if explicit {
+            v.push(Inj { op: mk_call(ts, hist::ZERO_HASH, ntx, format!("inj-{}-zerohash", u)), kind: "zero-hash-in-explicit-block", must_reject: true });
+            v.push(Inj { op: Op::Finalise { ts, hash: hist::ZERO_HASH.to_string(), count: ntx }, kind: "finalise-zero-hash-in-explicit-block", must_reject: true });
+        }
         v.push(Inj { op: Op::Commit, kind: "commit-while-open", must_reject: true });
         v.push(Inj { op: Op::Reorg { n: (d.height - 1).max(0) as u64 }, kind: "reorg-while-open", must_reject: true });
         v.push(Inj { op: Op::Mine { n: 1, ts: 5 }, kind: "mine-while-open", must_reject: true });
